@@ -17,7 +17,7 @@ func loadedByRequestKey(v ssa.Value, root ssa.Value) bool {
 	if lc == nil || idx != 0 || core.CalleeName(lc.Common()) != typesPkg+".LoadNodeInformation" {
 		return false
 	}
-	idc, i0 := core.CallResult(lc.Call.Args[2])
+	idc, i0 := core.CallResult(core.Strip(lc.Call.Args[2]))
 	if idc == nil || i0 != 0 || core.CalleeName(idc.Common()) != mod+".KeyIdFromPkix" {
 		return false
 	}
@@ -51,6 +51,33 @@ func sliceLiteralElems(v ssa.Value) ([]ssa.Value, bool) {
 	return out, true
 }
 
+// eachSource runs f on every non-phi value v may take, looking through module
+// helpers that return it (helper parameters bound to the call's arguments).
+func eachSource(v ssa.Value, f func(ssa.Value), anchors ...string) {
+	for _, x := range flattenPhi(v) {
+		eachValue(x, func(y ssa.Value) {
+			for _, z := range flattenPhi(y) {
+				f(z)
+			}
+		}, anchors...)
+	}
+}
+
+// sameAs: every non-nil value v may take (through helpers) is target.
+func sameAs(v, target ssa.Value) bool {
+	ok, n := true, 0
+	eachSource(v, func(x ssa.Value) {
+		if core.IsNilConst(x) {
+			return
+		}
+		n++
+		if x != target {
+			ok = false
+		}
+	})
+	return ok && n > 0
+}
+
 func c10(c *Ctx) {
 	p, r := c.P, c.R
 	r.Rule("R-C10.1", "in rotation.RotateNodeCredentials the AuthorizeNode call is cut by success of DecryptMessage(req.EncryptedFetchNodeCredentialsRequest, n, fetchRequest) for a record n loaded by the key ID of req.CertificatePublicKeyPkix or an element of the node-ID set of req.NodeId (nil-phi sensitive); the request passed on is the decrypted one")
@@ -67,7 +94,34 @@ func c10(c *Ctx) {
 	name := "rotation.RotateNodeCredentials"
 	req := paramOfType(fn, typesPkg, "RotateNodeCredentialsRequest")
 	auths := callsNamed(fn, mod+"/registration.AuthorizeNode")
-	decs := callsNamed(fn, mod+".DecryptMessage")
+	decSites := core.DeepCalls(fn, core.MaxSummaryDepth, mod+".DecryptMessage")
+	var decs []*ssa.Call
+	// the decryptions RotateNodeCredentials itself performs: not those inside
+	// the authorisation / fetch entry points it delegates to
+	{
+		var own []core.DeepSite
+		for _, ds := range decSites {
+			deleg := false
+			for _, ci := range ds.Chain {
+				switch core.CalleeName(ci.Common()) {
+				case mod + "/registration.AuthorizeNode", mod + "/registration.FetchNodeCredentials":
+					deleg = true
+				}
+			}
+			if !deleg {
+				own = append(own, ds)
+			}
+		}
+		decSites = own
+	}
+	for _, ds := range decSites {
+		if dc, ok := ds.Instr.(*ssa.Call); ok {
+			decs = append(decs, dc)
+			if len(ds.Chain) > 0 {
+				r.Fn(core.FuncName(ds.Fn))
+			}
+		}
+	}
 	if req == nil || len(auths) == 0 || len(decs) == 0 {
 		r.Unk("R-C10.1", name+" anchors", p.Pos(fn.Pos()), fmt.Sprintf("request param=%v AuthorizeNode calls=%d DecryptMessage calls=%d", req != nil, len(auths), len(decs)))
 		return
@@ -77,65 +131,68 @@ func c10(c *Ctx) {
 	var fetchReq ssa.Value
 	var authRecord ssa.Value
 	for i, d := range decs {
-		construct := fmt.Sprintf("%s DecryptMessage#%d", name, i)
-		ct := core.PathOf(d.Call.Args[1])
-		okCt := ct.Root == req && ct.HasFields("EncryptedFetchNodeCredentialsRequest")
-		rec := core.Strip(d.Call.Args[2])
-		okRec, why := false, core.ValueName(rec)
-		if sp, isElem := elemOf(rec); isElem && sp.HasFields("Nodes") {
-			okRec = true
-			for _, src := range flattenPhi(sp.Root) {
-				if core.IsNilConst(src) {
-					continue
-				}
-				if lc, idx := core.CallResult(src); lc != nil && idx == 0 && core.CalleeName(lc.Common()) == typesPkg+".LoadNodeInformationSetByNodeId" {
-					ap := core.PathOf(lc.Call.Args[2])
-					if ap.Root == req && ap.HasFields("NodeId") {
-						continue
+		i, d := i, d
+		decSites[i].In(func() {
+			construct := fmt.Sprintf("%s DecryptMessage#%d", name, i)
+			ct := core.PathOf(d.Call.Args[1])
+			okCt := ct.Root == req && ct.HasFields("EncryptedFetchNodeCredentialsRequest")
+			rec := core.Strip(d.Call.Args[2])
+			okRec, why := false, core.ValueName(rec)
+			if sp, isElem := elemOf(rec); isElem && sp.HasFields("Nodes") {
+				okRec = true
+				eachSource(sp.Root, func(src ssa.Value) {
+					if core.IsNilConst(src) {
+						return
 					}
-					okRec, why = false, "node-ID set loaded for "+ap.String()
-					continue
-				}
-				if al, isAl := src.(*ssa.Alloc); isAl && namedType(al.Type(), typesPkg, "NodeInformationSet") {
-					good := false
-					for _, st := range storesToField(fn, "types.NodeInformationSet", "Nodes") {
-						if core.PathOf(st.Addr).Root != al {
-							continue
+					if lc, idx := core.CallResult(src); lc != nil && idx == 0 && core.CalleeName(lc.Common()) == typesPkg+".LoadNodeInformationSetByNodeId" {
+						ap := core.PathOf(lc.Call.Args[2])
+						if ap.Root == req && ap.HasFields("NodeId") {
+							return
 						}
-						if elems, ok := sliceLiteralElems(st.Val); ok && len(elems) > 0 {
-							good = true
-							for _, e := range elems {
-								if !loadedByRequestKey(e, req) {
-									good = false
+						okRec, why = false, "node-ID set loaded for "+ap.String()
+						return
+					}
+					if al, isAl := src.(*ssa.Alloc); isAl && namedType(al.Type(), typesPkg, "NodeInformationSet") {
+						good := false
+						for _, st := range storesToField(al.Parent(), "types.NodeInformationSet", "Nodes") {
+							if core.PathOf(st.Addr).Root != al {
+								continue
+							}
+							if elems, ok := sliceLiteralElems(st.Val); ok && len(elems) > 0 {
+								good = true
+								for _, e := range elems {
+									if !loadedByRequestKey(e, req) {
+										good = false
+									}
 								}
 							}
 						}
+						if good {
+							return
+						}
+						okRec, why = false, "record set literal not filled from LoadNodeInformation(KeyIdFromPkix(req.CertificatePublicKeyPkix))"
+						return
 					}
-					if good {
-						continue
-					}
-					okRec, why = false, "record set literal not filled from LoadNodeInformation(KeyIdFromPkix(req.CertificatePublicKeyPkix))"
-					continue
+					okRec, why = false, "unreviewed record-set source "+core.ValueName(src)
+				}, typesPkg+".LoadNodeInformationSetByNodeId", typesPkg+".LoadNodeInformation")
+				if okRec {
+					why = "element of the record set loaded for the request's node ID or certificate key"
 				}
-				okRec, why = false, "unreviewed record-set source "+core.ValueName(src)
 			}
-			if okRec {
-				why = "element of the record set loaded for the request's node ID or certificate key"
+			if okCt && okRec {
+				approved[d] = true
+				fetchReq = core.Strip(d.Call.Args[3])
+				authRecord = rec
 			}
-		}
-		if okCt && okRec {
-			approved[d] = true
-			fetchReq = core.Strip(d.Call.Args[3])
-			authRecord = rec
-		}
-		r.Check(okCt && okRec, "R-C10.1", construct+" operands", p.Pos(d.Pos()), "decrypts req.EncryptedFetchNodeCredentialsRequest under "+why,
-			fmt.Sprintf("decrypt does not authenticate the request against a stored record of the identified node (ciphertext=%s ok=%v; key source: %s)", ct.String(), okCt, why))
+			r.Check(okCt && okRec, "R-C10.1", construct+" operands", p.Pos(d.Pos()), "decrypts req.EncryptedFetchNodeCredentialsRequest under "+why,
+				fmt.Sprintf("decrypt does not authenticate the request against a stored record of the identified node (ciphertext=%s ok=%v; key source: %s)", ct.String(), okCt, why))
+		})
 	}
 	gDec := core.ErrNil("DecryptMessage(req.Encrypted..., record, fetchRequest)", func(x *ssa.Call) bool { return approved[x] })
 	for i, ac := range auths {
 		res := core.CutReach(p, fn, gDec, ac.Block())
 		r.CutOb(p, "R-C10.1", fmt.Sprintf("%s AuthorizeNode-call#%d", name, i), p.Pos(ac.Pos()), res, gDec)
-		r.Check(fetchReq != nil && core.Strip(ac.Call.Args[2]) == fetchReq, "R-C10.1", fmt.Sprintf("%s AuthorizeNode-call#%d request", name, i), p.Pos(ac.Pos()),
+		r.Check(fetchReq != nil && sameAs(ac.Call.Args[2], fetchReq), "R-C10.1", fmt.Sprintf("%s AuthorizeNode-call#%d request", name, i), p.Pos(ac.Pos()),
 			"authorises the decrypted inner request", "the request handed to AuthorizeNode is not the message DecryptMessage filled")
 	}
 
@@ -149,9 +206,9 @@ func c10(c *Ctx) {
 	Kp := core.Strip(enc.Call.Args[2])
 	okK := true
 	whyK := ""
-	for _, src := range flattenPhi(Kp) {
+	eachSource(Kp, func(src ssa.Value) {
 		if core.IsNilConst(src) {
-			continue
+			return
 		}
 		// TypeAssert(proto.Clone(n)) or n itself
 		v := src
@@ -165,11 +222,11 @@ func c10(c *Ctx) {
 			okK = false
 			whyK = core.ValueName(src)
 		}
-	}
+	})
 	r.Check(okK && authRecord != nil, "R-C10.3", name+" reply key source", p.Pos(enc.Pos()), "reply is encrypted under (a clone of) the authenticating record", "reply key source is not the record that decrypted the request: "+whyK)
 	// inner response comes from FetchNodeCredentials(fetchRequest)
 	fc, fi := core.CallResult(core.Strip(enc.Call.Args[1]))
-	okF := fc != nil && fi == 0 && core.CalleeName(fc.Common()) == mod+"/registration.FetchNodeCredentials" && core.Strip(fc.Call.Args[2]) == fetchReq
+	okF := fc != nil && fi == 0 && core.CalleeName(fc.Common()) == mod+"/registration.FetchNodeCredentials" && sameAs(fc.Call.Args[2], fetchReq)
 	r.Check(okF, "R-C10.3", name+" reply payload", p.Pos(enc.Pos()), "payload is FetchNodeCredentials(decrypted request)", "payload is not the fetch response for the decrypted request")
 	// returned message carries the EncryptMessage result
 	okRet := false
